@@ -174,6 +174,9 @@ func (vc *FuncVC) callStatic(st *State, fn *ssa.Function, args []Val, binds []Va
 		return r
 	}
 	con := vc.g.DB.Funcs[name]
+	if con != nil && con.Mode == "step" && vc.step != nil && fn.Blocks != nil && !hasLoop(fn) && !con.Trusted {
+		return vc.inline(st, fn, args, binds, resT)
+	}
 	if con != nil && !con.Inline {
 		vc.curBinds = binds
 		defer func() { vc.curBinds = nil }()
@@ -704,6 +707,9 @@ func (vc *FuncVC) intrinsic(st *State, name string, fn *ssa.Function, args []Val
 		if args[0].K == KInt {
 			st.nilCheck(args[0].T, "atomic operand")
 		}
+		if vc.step != nil && st.step != nil && st.dry == nil {
+			return vc.atomicStep(st, op, l, pt, args, resT), true
+		}
 		switch {
 		case strings.HasPrefix(op, "Load"):
 			return one(st.loadLoc(l))
@@ -735,6 +741,10 @@ func (vc *FuncVC) intrinsic(st *State, name string, fn *ssa.Function, args []Val
 			vc.havocEffects(st, sp)
 		}
 		st.g.note("fork-join abstraction: goroutines started by a function are summarised by their contract's modifies clause at the go statement and at WaitGroup.Wait")
+		return one(unit)
+	}
+	if vc.step != nil && st.step != nil && st.dry == nil && (name == "(*sync.Mutex).Lock" || name == "(*sync.Mutex).Unlock") {
+		vc.lockOp(st, name == "(*sync.Mutex).Lock")
 		return one(unit)
 	}
 	switch name {
@@ -893,4 +903,58 @@ func (vc *FuncVC) goStmt(st *State, g *ssa.Go) {
 	sp := spawnRec{con: con, name: name, vars: vars, pkg: pkg}
 	st.spawned = append(st.spawned, sp)
 	vc.havocEffects(st, sp)
+}
+
+// atomicStep executes a sync/atomic operation as one step of the thread-modular mode.
+func (vc *FuncVC) atomicStep(st *State, op string, l *Loc, pt types.Type, args []Val, resT types.Type) []outcome {
+	unit := Val{K: KTuple}
+	isTry := false
+	for _, lk := range vc.step.spec.Locks {
+		if lk.Kind == "trylock" && lk.Field == l.Heap {
+			isTry = true
+		}
+	}
+	k, con := vc.stepBegin(st, vc.curInstr)
+	switch {
+	case strings.HasPrefix(op, "Load"):
+		v := st.loadLoc(l)
+		vc.stepEnd(st, k, con, v, pt)
+		return []outcome{{st, v}}
+	case strings.HasPrefix(op, "Store"):
+		st.storeLoc(l, st.toScalar(args[1]))
+		vc.stepEnd(st, k, con, unit, nil)
+		return []outcome{{st, unit}}
+	case strings.HasPrefix(op, "Add"):
+		old := st.loadLoc(l)
+		c := st.g.fresh("atomic.add", "Int")
+		st.assume(fmt.Sprintf("(= %s %s)", c, wrap(pt, fmt.Sprintf("(+ %s %s)", old.T, args[1].T))))
+		st.storeLoc(l, IntV(c))
+		vc.stepEnd(st, k, con, IntV(c), pt)
+		return []outcome{{st, IntV(c)}}
+	case strings.HasPrefix(op, "Swap"):
+		old := st.loadLoc(l)
+		st.storeLoc(l, st.toScalar(args[1]))
+		vc.stepEnd(st, k, con, old, pt)
+		return []outcome{{st, old}}
+	case strings.HasPrefix(op, "CompareAndSwap"):
+		old := st.loadLoc(l)
+		exp, nv := st.toScalar(args[1]).T, st.toScalar(args[2]).T
+		// fork on the outcome: the two cases have different effects (and, for try-locks, different held sets)
+		s2 := st.clone()
+		st.assume(fmt.Sprintf("(= %s %s)", old.T, exp))
+		st.storeLoc(l, IntV(nv))
+		if isTry {
+			if nv == "1" {
+				st.step.held[l.Heap] = true
+			} else if nv == "0" {
+				st.step.held[l.Heap] = false
+			}
+		}
+		vc.stepEnd(st, k, con, BoolV("true"), tBool)
+		s2.assume(fmt.Sprintf("(not (= %s %s))", old.T, exp))
+		vc.stepEnd(s2, k, con, BoolV("false"), tBool)
+		return []outcome{{st, BoolV("true")}, {s2, BoolV("false")}}
+	}
+	st.inAtomic = false
+	return []outcome{{st, st.freshVal(resT, "atomic")}}
 }
